@@ -77,6 +77,7 @@ type rsDgram struct {
 	cuts    [][]rsFrag
 	injs    []rsInj
 	df      bool // its fragments carry the don't-fragment bit as well (RFC 791 copies the flag into every fragment)
+	opts    int  // 0 none; 1 IP options in the first fragment only (options not marked "copied"); 2 in every fragment
 	lastDel int  // seq of the last delivery (0 = none)
 	ndel    int
 	ident   uint16
@@ -183,6 +184,9 @@ func (w *reasmWorld) newDgram(r *sim.Rand, near *rsDgram) *rsDgram {
 			d.ip = codec.EncodeEcho([]byte(d.src), []byte(d.dst), false, false, d.ident, uint16(d.uid), d.payload)
 		}
 		d.df = r.Chance(0.2)
+		if r.Chance(0.15) && !big {
+			d.opts = 1 + r.Intn(2)
+		}
 		for c := r.Range(1, 2); c > 0; c-- {
 			k := r.Range(2, 6)
 			if r.Chance(0.2) {
@@ -207,6 +211,15 @@ func (w *reasmWorld) inject(d *rsDgram, f rsFrag, pad int) {
 		return // the key has been taken over by a newer datagram: this one is retired
 	}
 	pkt := codec.IPv4([]byte(d.src), []byte(d.dst), d.proto, d.id, 64, d.df, f.more, f.off, d.ip[f.off:f.off+f.n])
+	if d.opts == 2 || (d.opts == 1 && f.off == 0) {
+		// options belong to the header: what is reassembled is the payload behind them
+		o := codec.OptRouterAlert()
+		if d.opts == 1 {
+			o = codec.OptRecordRoute(1 + d.uid%3)
+		}
+		pkt = codec.IPv4Opts([]byte(d.src), []byte(d.dst), d.proto, d.id, 64, d.df, f.more, f.off, o, d.ip[f.off:f.off+f.n])
+		w.Probes["fragments_with_ip_options"]++
+	}
 	if d.df {
 		w.Probes["fragments_carrying_df"]++
 	}
